@@ -169,7 +169,8 @@ FORM_CREDS = [None, ("c2", "s2"), ("c2", "bad"), ("c2", ""), ("zz", "s2"), ("c1"
               ("pub", ""), ("c1", None), ("", "s1"), ("zz", None)]
 
 
-def run_authenticate(ctx, clients, header, form_cred, query_id, assertion, methods, endpoint, used):
+def run_authenticate(ctx, clients, header, form_cred, query_id, assertion, methods, endpoint, used, shared=None):
+    """shared: a (ClientAuthentication, used-jti set) pair that lives across requests, as it does in a server process"""
     m = ctx.model
     form = {}
     mreq = {"auth": header, "assertion_sig_ok": False, "assertion_wellformed": False, "assertion_claims": {}}
@@ -188,9 +189,12 @@ def run_authenticate(ctx, clients, header, form_cred, query_id, assertion, metho
     mreq.update(form_id=form.get("client_id"), form_secret=form.get("client_secret"),
                 data_id=data.get("client_id"), data_secret=data.get("client_secret"))
     req = OAuth2Request("POST", uri, form, {} if header is None else {"Authorization": header})
-    ca = ClientAuthentication(lambda cid: clients.get(cid))
-    used_impl = set(used)
-    ca.register(METHOD, Assertion(used_impl))
+    if shared is None:
+        ca = ClientAuthentication(lambda cid: clients.get(cid))
+        used_impl = set(used)
+        ca.register(METHOD, Assertion(used_impl))
+    else:
+        ca = shared
     real_time = time.time
     time.time = lambda: NOW
     try:
@@ -289,6 +293,23 @@ def run(ctx):
             for fc, q in ((("ck", None), None), (("cj", None), None), (("c1", None), None), (("c2", "s2"), None),
                           (("pub", None), None), (None, "ck"), (("zz", None), None)):
                 run_authenticate(ctx, clients, None, fc, q, make_assertion(rng, v), ms, "token", {"used-1"})
+    # 4. one authenticator over a whole history of requests, as in a server process: every answer is still a function of
+    #    its own request (method lists and endpoints change from request to request)
+    simple = list(itertools.product(headers[:8] + [None], FORM_CREDS, METHOD_LISTS, ENDPOINTS))
+    for hist in range(40 if ctx.tier == "quick" else 400):
+        ca = ClientAuthentication(lambda cid: clients.get(cid))
+        ca.register(METHOD, Assertion(set()))
+        cid, sec = rng.choice([("c1", "s1"), ("c2", "s2"), ("pub", None)])
+        for step in range(rng.randint(3, 8)):
+            if rng.random() < 0.7:
+                # the same client, one way of presenting itself, at changing endpoints with changing permitted methods
+                how = rng.choice(["basic", "post", "none"])
+                h = "Basic " + b64("%s:%s" % (cid, sec or "")) if how == "basic" else None
+                fc = (cid, sec) if how == "post" else (cid, None) if how == "none" else None
+                run_authenticate(ctx, clients, h, fc, None, None, rng.choice(METHOD_LISTS), rng.choice(ENDPOINTS), set(), shared=ca)
+            else:
+                h, fc, ms, ep = rng.choice(simple)
+                run_authenticate(ctx, clients, h, fc, None, None, ms, ep, set(), shared=ca)
     run_endpoints(ctx, clients)
 
 
